@@ -7,12 +7,56 @@ import (
 	"github.com/xjslang/xjs/sourcemap"
 )
 
+// cleanEmptyLines trims the output and removes the trailing spaces of its
+// lines. Line ends inside a backtick string belong to the literal's value and
+// are left alone.
 func cleanEmptyLines(code string) string {
-	lines := strings.Split(strings.TrimSpace(code), "\n")
-	for i, line := range lines {
-		lines[i] = strings.TrimRight(line, " ")
+	code = strings.TrimSpace(code)
+	const (
+		inCode = iota
+		inString
+		inTemplate
+		inComment
+	)
+	var out strings.Builder
+	state := inCode
+	lineStart := 0
+	for i := 0; i <= len(code); i++ {
+		if i == len(code) || code[i] == '\n' {
+			line := code[lineStart:i]
+			if state != inTemplate {
+				line = strings.TrimRight(line, " ")
+			}
+			out.WriteString(line)
+			if i < len(code) {
+				out.WriteByte('\n')
+			}
+			lineStart = i + 1
+			if state == inComment {
+				state = inCode
+			}
+			continue
+		}
+		switch state {
+		case inCode:
+			switch {
+			case code[i] == '"':
+				state = inString
+			case code[i] == '`':
+				state = inTemplate
+			case code[i] == '/' && i+1 < len(code) && code[i+1] == '/':
+				state = inComment
+			}
+		case inString, inTemplate:
+			switch {
+			case code[i] == '\\' && i+1 < len(code) && code[i+1] != '\n':
+				i++ // the escaped character
+			case state == inString && code[i] == '"', state == inTemplate && code[i] == '`':
+				state = inCode
+			}
+		}
 	}
-	return strings.Join(lines, "\n")
+	return out.String()
 }
 
 type CompileResult struct {
